@@ -78,6 +78,26 @@ class C28Trigger(Base):
             return bool(set(b['flows']) - {int(f[0])})
         return False
 
+    def downstream_of_other_flow(self, rec, tid):
+        """Does the member depend, inside the group, on a member that was
+        pooled in other flows (or in none) and therefore never re-ran in
+        the triggered flow? (What that pooled proxy completes belongs to
+        its own flows.)"""
+        seen, todo = set(), [tid]
+        while todo:
+            cur = todo.pop()
+            p, n = split_id(cur)
+            for a in group_atoms(self.gt, n, p, rec['group']):
+                par = f'{wfgen.atom_point(a, p)}/{a[1]}'
+                if par in seen:
+                    continue
+                seen.add(par)
+                todo.append(par)
+                if par not in rec['start'] and self.other_flow(rec, par) \
+                        and not rec['preps'][par]:
+                    return True
+        return False
+
     def ran_in_flow_merged_upstream(self, rec, tid):
         """Had the member run already in a flow that the trigger merged
         with the triggered flow at an in-group ancestor (the ancestor was
@@ -115,7 +135,13 @@ class C28Trigger(Base):
             q = wfgen.atom_point(a, p)
             par = f'{q}/{a[1]}'
             b = rec['before'].get(par)
-            if a[3] not in wfgen.STD and a[3] != 'finished' and \
+            implied_only = a[3] in ('started', 'submitted') and (
+                a[1], q, a[3]) not in rec['explicit']
+            # (a standard output the re-run only implied - its own message
+            # was lost or overtaken - is not announced either when the
+            # reused proxy already holds it)
+            if (implied_only or a[3] not in wfgen.STD
+                    and a[3] != 'finished') and \
                     par in rec['start'] and b is not None and (
                         b['status'] in FINAL or b['status'] == 'preparing'
                     ) and a[3] in b['outputs']:
@@ -157,8 +183,11 @@ class C28Trigger(Base):
                 rec['suspended'] = True
         elif k == 'PREP':
             for t in ev['tasks']:
-                if t['status'] != 'waiting':
+                if t['status'] == 'preparing':
                     continue        # passed back through preparation
+                # (a triggered task can be prepared from a finished state:
+                # reset to waiting by the trigger, then set back by the
+                # answer to a poll of its previous job before preparation)
                 self.ran.setdefault(t['id'], set()).update(t['flows'])
                 self.on_prep(t)
         elif k == 'POOL_ADD' and self.in_cmd and self.cur_rec is not None \
@@ -197,6 +226,10 @@ class C28Trigger(Base):
                 o = self.msg_to_output(n, ev['message'])
                 if o:
                     rec['msg_facts'].add((n, p, o))
+                    if not ev.get('ret'):
+                        # (ret: the message was ignored, e.g. a 'started'
+                        # overtaken by 'succeeded')
+                        rec['explicit'].add((n, p, o))
                     for imp in {'succeeded': ('submitted', 'started'),
                                 'failed': ('submitted', 'started'),
                                 'started': ('submitted',)}.get(o, ()):
@@ -240,7 +273,7 @@ class C28Trigger(Base):
             'suspended': bool(schd.stop_mode or schd.reload_pending),
             'checked_offgroup': False, 'late_start': set(),
             'prep_flows': {}, 'fed_by_old_job': set(), 'live_flows': {},
-            'msg_facts': set(), 'flow_spawned': set(),
+            'msg_facts': set(), 'flow_spawned': set(), 'explicit': set(),
             'ran_before': {t: set(self.ran.get(t, ())) for t in group},
         }
         self.cur_rec = rec
@@ -313,7 +346,8 @@ class C28Trigger(Base):
             if not ok:
                 self.v('member-ran-before-in-group-prerequisites' + (
                     ':pooled-member-in-another-flow'
-                    if self.other_flow(rec, tid) else ''),
+                    if self.other_flow(rec, tid)
+                    or self.downstream_of_other_flow(rec, tid) else ''),
                        f'{tid} entered job preparation although its '
                        f'prerequisites on group members '
                        f'{sorted(rec["group"] - {tid})} are not satisfied '
@@ -456,7 +490,8 @@ class C28Trigger(Base):
                         ':completed-by-messages-of-its-removed-job'
                         if tid in rec['fed_by_old_job'] else
                         ':pooled-member-in-another-flow'
-                        if self.other_flow(rec, tid) else
+                        if self.other_flow(rec, tid)
+                        or self.downstream_of_other_flow(rec, tid) else
                         ':ran-before-in-flow-merged-at-in-group-parent'
                         if self.ran_in_flow_merged_upstream(rec, tid) else
                         ':rerun-custom-output-ignored'
